@@ -583,7 +583,17 @@ func (tb *TB) write(sb *strings.Builder, t *Term, named map[*Term]string) {
 		if len(t.Pats) > 0 {
 			for _, p := range t.Pats {
 				sb.WriteString(" :pattern (")
-				tb.write(sb, p, named)
+				if p.Kind == kApp && p.Op == "" {
+					// multi-pattern group
+					for i, a := range p.Args {
+						if i > 0 {
+							sb.WriteByte(' ')
+						}
+						tb.write(sb, a, named)
+					}
+				} else {
+					tb.write(sb, p, named)
+				}
 				sb.WriteString(")")
 			}
 			sb.WriteString(")")
